@@ -38,24 +38,24 @@ type c14Witness struct {
 }
 
 type c14State struct {
-	r       *vk.Run
-	env     *esrvEnv
-	rng     *vk.Rand
-	id      string
-	m       *mIndex
-	f       *mField // the int field "v"
-	ff      *mField // filter field "f"
-	index   string
-	mode    string
-	depth   int
-	cols    []uint64 // every column that may hold a value
-	log     []string
-	failed  bool
-	hi      map[uint64]uint // per column: widest magnitude (bits) ever written, clears included
-	reads   bool            // a read has happened (rows may sit in the row cache)
-	hist    map[string]bool // write-history classes (input predicates)
-	lowOpN  bool
-	reopen  bool
+	r      *vk.Run
+	env    *esrvEnv
+	rng    *vk.Rand
+	id     string
+	m      *mIndex
+	f      *mField // the int field "v"
+	ff     *mField // filter field "f"
+	index  string
+	mode   string
+	depth  int
+	cols   []uint64 // every column that may hold a value
+	log    []string
+	failed bool
+	hi     map[uint64]uint // per column: widest magnitude (bits) ever written, clears included
+	reads  bool            // a read has happened (rows may sit in the row cache)
+	hist   map[string]bool // write-history classes (input predicates)
+	lowOpN bool
+	reopen bool
 }
 
 // history returns the write-history class of the case: the first of the
